@@ -473,6 +473,23 @@ def run(rep, tier):
     rep.rule("R07.7", "an error of a sidecar commit point leaves no stale cache entry behind: the Err edge of and_try_compute_with reaches a cache invalidation "
              "(update_meta_with, delete_object)", floor=2)
     ostore.commit_error_forgets_cache_rules(rep, "R07.7", prog)
+    # a read answers about an object: even the degenerate request (no ranges) has to resolve the key first, so that a missing key is
+    # NotFound on every read path, as with the reference store
+    rep.rule("R07.8", "every read entry of the wrappers resolves the object's metadata before it can answer Ok (a missing key is NotFound, also for get_ranges with "
+             "no ranges)", floor=2)
+    for wrapper in ("MetaStore", "EncryptedStore"):
+        f = ostore.wrapper_fn(prog, wrapper, "get_ranges")
+        rep.saw(f, len(f.events))
+        gm = [e for e in f.calls() if re.search(r"SidecarStore::<T, M>::get_meta$|::verified_metadata$", e.name or "")]
+        okret = [b for b in f.live_blocks() for st in f.stmts(b) if st[0] == "A" and st[1]["l"] == 0 and not st[1].get("p") and st[2]["k"] == "agg"
+                 and st[2]["a"].get("v") in ("Ok", "Ready")]
+        okv = [b for b in f.live_blocks() for st in f.stmts(b) if st[0] == "A" and st[2]["k"] == "agg" and st[2]["a"].get("v") == "Ok"
+               and (st[2]["a"].get("def") or "").endswith("result::Result")]
+        gb = {b for e in gm for b in (e.block, e.call_block)}
+        bad = [b for b in okv if not f.must_pass(gb, [b])]
+        rep.ob("R07.8", "read-resolves-the-object-first|%s::get_ranges" % wrapper, bool(gm) and bool(okv) and not bad,
+               "get_ranges can answer Ok without looking the object up (the early return for an empty range list): get_ranges(missing, []) is Ok([]) where the "
+               "reference store, and every other read of the wrapper, answers NotFound", (f.file + ":%d" % f.term(bad[0]).get("ln", f.line)) if bad else f.file)
     return rep.finish(EXPLAIN)
 
 
